@@ -77,7 +77,16 @@ class Inner(AutoSerialize):
         return o
 
 
-CLASSES = {c.__name__: c for c in (Root, NodeA, NodeB, NodeC, Old, Top, Mid, Inner)}
+class HybridInner(AutoSerialize, torch.nn.Module):
+    """Both AutoSerialize and torch.nn.Module (the pattern of the repository's test_hybrid_module_roundtrip and of
+    the object / probe / dataset models of a Ptychography object). Attributes are set by the descriptor builder."""
+
+    def __init__(self):
+        torch.nn.Module.__init__(self)
+        super().__init__()
+
+
+CLASSES = {c.__name__: c for c in (Root, NodeA, NodeB, NodeC, Old, Top, Mid, Inner, HybridInner)}
 
 
 # ============================================================================= 2. leaf alphabet
@@ -552,7 +561,7 @@ def _pair_graphs(reps, kinds, wrappers):
     return out
 
 
-def _nest_graphs(d):
+def _nest_graphs(d, lone_wrappers=True):
     """Every chain of container kinds of length 1..d, innermost filled with each content class."""
     contents = {
         "empty": [],
@@ -577,7 +586,7 @@ def _nest_graphs(d):
                             ok = False
                             break
                         nxt.append(_wrap(k, v, L("s")))
-                        if n == 2:
+                        if n == 2 and lone_wrappers:
                             nxt.append(_wrap(k, v))
                     if not ok:
                         break
@@ -679,8 +688,9 @@ def _width_graphs(quick):
     Cost decides the sub-lattices: element kinds stored as attributes (str, mixed scalars) or as one array
     (all-numeric control) are cheap at any width; kinds that cost one zarr node per element (ndarray, nested
     pair, object) make the library's list decoder quadratic (a 101-element list of arrays takes ~15 s to load).
-      quick   : cheap kinds: str at all widths, mixed scalars at all but {99, 100}, the all-numeric control at
-                             {10, 11, 101} on top level; str and mixed at widths {11, 101} one level deep;
+      quick   : cheap kinds: lists of str at all widths, lists of mixed scalars at all but {99, 100}, every other
+                             container kind and the all-numeric control at {10, 11, 101} on top level; str and mixed
+                             at widths {11, 101} one level deep;
                 node kinds : widths {10, 11, 12} on top level (objects {10, 11}), width 11 one level deep in a list.
       thorough: cheap kinds: all widths, top level and both wrappers;
                 node kinds : all widths on top level (objects {10, 11, 101}); one level deep widths {11, 12, 25}
@@ -696,7 +706,7 @@ def _width_graphs(quick):
                 if elem == "object" and n not in (10, 11, 101):
                     continue
                 if elem in cheap:
-                    top = (not quick) or elem == "str" or (elem == "mixed_scalars" and n not in (99, 100)) or n in (10, 11, 101)
+                    top = (not quick) or (elem == "str" and kind == "list") or (elem == "mixed_scalars" and kind == "list" and n not in (99, 100)) or n in (10, 11, 101)
                     deep_list = (not quick) or (n in (11, 101) and elem != "all_numeric")
                     deep_dict = not quick
                 elif quick:
@@ -789,7 +799,7 @@ def grammar(tier):
     else:
         add("pair_of_dispatch_classes", _pair_graphs(REPS, KINDS, [None]))
     # D. container kinds nested in container kinds
-    add("container_nesting", _nest_graphs(d))
+    add("container_nesting", _nest_graphs(d, lone_wrappers=not quick))
     # E. AutoSerialize objects to depth 3 through attributes and containers
     objs = _object_graphs()
     if quick:  # all 16 combinations of the two upper links with an attribute link below, all lower links below attribute links
@@ -816,7 +826,8 @@ def grammar(tier):
     for nm in NAME_ALPHABET:
         for v in (NAME_VALUES[:2] if quick else NAME_VALUES):
             names.append(O("Root", (nm, L(v))))
-            names.append(O("Root", x=D((nm, L(v)), ("other", L("s")))))
+            if not quick or v != NAME_VALUES[0]:  # quick: dict keys only with the array value (a key that names a zarr node)
+                names.append(O("Root", x=D((nm, L(v)), ("other", L("s")))))
     add("names", names)
     # I. wide containers (slot names with 1, 2 and 3 digits)
     add("wide_container", _width_graphs(quick))
